@@ -177,6 +177,7 @@ def _list_matrix(fname, tier):
                 single.append([("extend", it)])
                 single.append([("iadd", it)])
                 single.append([("add", it)])
+                single.append([("new", it)])
                 for sl in sl_list[:6]:
                     single.append([("setslice", sl, it)])
                 if kind in ("list", "iter", "same"):
@@ -259,9 +260,9 @@ def _list_random(rng, fname, maxops):
         elif r < 0.26:
             x = _rand_item(rng, fname, cls); ops.append(("setitem", rng.randint(-n - 1, n + 1), x))
         elif r < 0.36:
-            it = _rand_iterable(rng, fname, cls); ops.append((rng.choice(["extend", "iadd", "add"]), it))
+            it = _rand_iterable(rng, fname, cls); ops.append((rng.choice(["extend", "iadd", "add", "new"]), it))
             x = None if not _has_none(it) else 0
-            n_est += len(it[1]) if ops[-1][0] != "add" else 0
+            n_est += len(it[1]) if ops[-1][0] in ("extend", "iadd") else 0
         elif r < 0.48:
             it = _rand_iterable(rng, fname, cls); ops.append(("setslice", _rand_slice(rng, n), it))
         elif r < 0.53:
@@ -305,7 +306,7 @@ def _list_random(rng, fname, maxops):
                 none_possible = True
         if last[0] in ("append", "insert", "setitem") and last[-1] is None:
             none_possible = True
-        if last[0] in ("extend", "iadd", "add", "setslice") and _has_none(last[-1]):
+        if last[0] in ("extend", "iadd", "setslice") and _has_none(last[-1]):
             none_possible = True
     return {"kind": "list", "field": fname, "init": init, "ops": ops, "src": "random"}
 
@@ -423,7 +424,7 @@ def _dict_matrix(tier):
                     if skind in ("none", "self", "compat", "othercfg") and ck != "valid":
                         continue
                     ps = _src_pairs(dk, skind, kcls, vcls, ck)
-                    single += [[("update", (skind, ps), [])]]
+                    single += [[("update", (skind, ps), [])], [("new", (skind, ps))]]
                     if skind != "none":
                         single += [[("ior", (skind, ps))]]
                     if skind in OR_KINDS:
@@ -492,7 +493,7 @@ def _dict_random(rng, i, maxops):
             kv = rpairs(1)[0]
             ops.append(("setdefault",) + kv if rng.random() < 0.7 else ("setdefault1", kv[0]))
         elif r < 0.56:
-            ops.append(("copy",))
+            ops.append(("copy",) if rng.random() < 0.4 else ("new", rsrc()))
         elif r < 0.63:
             ops.append(("pop", q) if rng.random() < 0.5 else ("popd", q, rng.choice([None, 0, "d"])))
         elif r < 0.68:
@@ -550,7 +551,7 @@ def _g_dsrc(dk, src):
     if skind == "self":
         return "DSSelf"
     con = {"dict": "DSDict", "pairs": "DSPairs", "iter": "DSIter", "gen": "DSIter", "mapping": "DSMapping",
-           "mappingproxy": "DSMapping", "compat": "DSCompat", "othercfg": "DSProxyOther", "otherfield": "DSProxyOther"}[skind]
+           "mappingproxy": "DSMapping", "compat": "DSCompat", "othercfg": "DSSameField", "otherfield": "DSProxyOther"}[skind]
     return "(%s %s)" % (con, _g_pairs(_dsrc_contents(dk, src)))
 
 
@@ -564,8 +565,8 @@ def _g_dop(dk, op):
         return "(DSetItem %s %s)" % (gal(op[1]), gal(op[2]))
     if k == "update":
         return "(DUpdate %s %s)" % (_g_dsrc(dk, op[1]), _g_pairs(op[2]))
-    if k in ("ior", "or"):
-        return "(%s %s)" % ("DIOr" if k == "ior" else "DOr", _g_dsrc(dk, op[1]))
+    if k in ("ior", "or", "new"):
+        return "(%s %s)" % ({"ior": "DIOr", "or": "DOr", "new": "DNew"}[k], _g_dsrc(dk, op[1]))
     if k == "setdefault":
         return "(DSetDefault %s (Some %s))" % (gal(op[1]), gal(op[2]))
     if k == "setdefault1":
@@ -604,7 +605,7 @@ def _g_dict_case(c):
             ps = [(op[1], None)]
         elif op[0] == "update":
             ps = _dsrc_contents(dk, op[1]) + list(op[2])
-        elif op[0] == "ior":
+        elif op[0] in ("ior", "new"):
             ps = _dsrc_contents(dk, op[1])
         for a, b in ps:
             ks.append(a)
@@ -635,6 +636,11 @@ def _apply_dict(obj, op, arg, kw):
         return q
     if k == "or":
         return obj | arg
+    if k == "new":
+        from cincoconfig.fields.dict_field import DictProxy
+        if isinstance(obj, DictProxy):
+            return DictProxy(obj.cfg, obj.dict_field) if arg is _NOARG else DictProxy(obj.cfg, obj.dict_field, arg)
+        return dict() if arg is _NOARG else dict(arg)
     if k == "setdefault":
         return obj.setdefault(arg[0], arg[1])
     if k == "setdefault1":
@@ -720,7 +726,7 @@ def _impl_dict(c):
             parg = (op[1], op[2] if k != "setdefault1" else None)
             r = vpair(*parg)
             accepted, targ = r is not None, r
-        elif k in ("update", "ior", "or"):
+        elif k in ("update", "ior", "or", "new"):
             skind, ps = op[1]
             contents = _dsrc_contents(dk, op[1])
             if skind == "none":
@@ -753,6 +759,8 @@ def _impl_dict(c):
                     targ = {"dict": dict, "pairs": list, "iter": iter, "gen": iter,
                             "mapping": lambda v: collections.UserDict(dict(v)),
                             "mappingproxy": lambda v: types.MappingProxyType(dict(v))}[skind]([tuple(x) for x in ps])
+            elif k == "new" and skind == "othercfg":
+                targ = dict(contents)          # same field: DictProxy.__init__ does not validate again
             elif skind not in ("none", "self", "compat"):
                 norm, src_ok = vpairs(contents)
                 targ = norm if src_ok else None
@@ -821,12 +829,12 @@ def _oracle_dict(c, obs):
                 bad.append("step %d (%s): contents %r differ from the builtin's %r" % (n, k, pc.items, tc))
             if pout[0] != tout[0] or not _eq_ret(pout[1], tout[1]):
                 bad.append("step %d (%s): result %r differs from the builtin's %r" % (n, k, _canon_out(pout), _canon_out(tout)))
-            if pout[0] == "ok" and k == "copy":
+            if pout[0] == "ok" and k in ("copy", "new"):
                 r = pout[1]
                 if not isinstance(r, Proxy) or r.fid != 0:
-                    bad.append("step %d (copy): the result is not a typed dict" % n)
+                    bad.append("step %d (%s): the result is not a typed dict" % (n, k))
                 elif held_ok(r.items):
-                    bad.append("step %d (copy): the returned typed dict holds unvalidated %s" % (n, held_ok(r.items)))
+                    bad.append("step %d (%s): the returned typed dict holds unvalidated %s" % (n, k, held_ok(r.items)))
             if pout[0] == "ok" and k == "ior" and not (isinstance(pout[1], Other) and pout[1].tag == 0):
                 bad.append("step %d (|=): the result is not the typed dict itself" % n)
         else:
@@ -953,8 +961,8 @@ def _g_lop(fname, op):
         return "(LInsert %s %s)" % (g_z(op[1]), gal(op[2]))
     if k == "setitem":
         return "(LSetItem %s %s)" % (g_z(op[1]), gal(op[2]))
-    if k in ("extend", "iadd", "add"):
-        return "(%s %s)" % ({"extend": "LExtend", "iadd": "LIAdd", "add": "LAdd"}[k], _g_iterable(fname, op[1]))
+    if k in ("extend", "iadd", "add", "new"):
+        return "(%s %s)" % ({"extend": "LExtend", "iadd": "LIAdd", "add": "LAdd", "new": "LNew"}[k], _g_iterable(fname, op[1]))
     if k == "setslice":
         return "(LSetSlice %s %s)" % (_g_slice(op[1]), _g_iterable(fname, op[2]))
     if k in ("delitem", "getitem"):
@@ -986,7 +994,7 @@ def _list_inserted_values(fname, c):
             vals.append(op[1])
         elif op[0] in ("insert", "setitem"):
             vals.append(op[2])
-        elif op[0] in ("extend", "iadd", "add"):
+        elif op[0] in ("extend", "iadd", "add", "new"):
             vals += _it_values(fname, op[1])
         elif op[0] == "setslice":
             vals += _it_values(fname, op[2])
@@ -1042,6 +1050,9 @@ def _apply_list(obj, op, arg):
         return q
     if k == "add":
         return obj + arg
+    if k == "new":
+        from cincoconfig.fields.list_field import ListProxy
+        return ListProxy(obj.cfg, obj.list_field, arg) if isinstance(obj, ListProxy) else list(arg)
     if k == "setslice":
         obj[slice(*op[1])] = arg
         return None
@@ -1124,7 +1135,7 @@ def _impl_list(c):
             parg = op[-1]
             r = _validate(main, parg)
             accepted, targ = r[0] == "ok", (r[1] if r[0] == "ok" else None)
-        elif k in ("extend", "iadd", "add", "setslice"):
+        elif k in ("extend", "iadd", "add", "setslice", "new"):
             kind, items = op[-1]
             if kind == "self":
                 parg = p
@@ -1246,7 +1257,7 @@ def _oracle_list(c, obs):
                 bad.append("step %d (%s): contents %r differ from the builtin's %r" % (n, k, pc.items, tc))
             if pout[0] != tout[0] or not _eq_ret(pout[1], tout[1]):
                 bad.append("step %d (%s): result %r differs from the builtin's %r" % (n, k, _canon_out(pout), _canon_out(tout)))
-            if pout[0] == "ok" and k in ("copy", "add"):
+            if pout[0] == "ok" and k in ("copy", "add", "new"):
                 r = pout[1]
                 if not isinstance(r, Proxy) or r.fid != 0:
                     bad.append("step %d (%s): the result is not a typed list" % (n, k))
@@ -1294,7 +1305,7 @@ def tags(c, obs):
         pout, _, tout, _ = step
         res = "rejected" if tout == "skipped" else (pout[0] if pout[0] == "ok" else "err-" + pout[1])
         t.add("%s:%s:%s" % (kind, op[0], res))
-        if op[0] in ("extend", "iadd", "add", "setslice", "update", "ior"):
+        if op[0] in ("extend", "iadd", "add", "setslice", "update", "ior", "new", "or"):
             src = op[-1] if kind == "list" else op[1]
             if isinstance(src, (tuple, list)) and src and isinstance(src[0], str):
                 t.add("%s:%s:from-%s" % (kind, op[0], src[0]))
